@@ -2,7 +2,9 @@ package main
 
 import (
 	"fmt"
+	"os"
 	"sort"
+	"strconv"
 	"strings"
 
 	"verifharness/dnsfix"
@@ -99,24 +101,42 @@ func enumerateFiles(maxLen int) []smallFile {
 //	            (batch size x parallelism) combinations, worker counts rotating   (21)
 //	gridSizes1  the same for ONE key layout (alternating) + one of the 27
 //	            RocksDB settings of the other layout                             (13)
+//	gridSizesH  CDB workers 1-3 + for one key layout (alternating) one builder and
+//	            the four batch sizes with alternating parallelism + one of the 27
+//	            RocksDB settings of the other layout                              (9)
+//	gridSizesQ  CDB workers 1-3 + for one key layout (alternating) one builder and
+//	            two of the four batch sizes (rotating) + one of the 27 RocksDB
+//	            settings of the other layout                                      (7)
 //	gridOne     CDB workers 1-3 + one of the 54 RocksDB settings                  (4)
+//	gridOneIn2  like gridOne, the RocksDB setting only on every 2nd file
+//	gridOneIn4  like gridOne, the RocksDB setting only on every 4th file
+//	gridOneIn8  like gridOne, the RocksDB setting only on every 8th file
+//	gridThin    ONE CDB worker count (rotating) + the RocksDB setting on every 8th file
 type gridKind int
 
 const (
 	gridFull gridKind = iota
 	gridSizes2
 	gridSizes1
+	gridSizesH
+	gridSizesQ
 	gridOne
+	gridOneIn2
+	gridOneIn4
+	gridOneIn8
+	gridThin
 )
 
-func (g gridKind) String() string { return [...]string{"full", "sizes2", "sizes1", "one"}[g] }
+func (g gridKind) String() string {
+	return [...]string{"full", "sizes2", "sizes1", "sizes-half", "sizes-quarter", "one", "one-in-2", "one-in-4", "one-in-8", "thin"}[g]
+}
 
 // layerGrids maps a number of lines to the grid used for files of that length.
 func layerGrids(thorough bool) []gridKind {
 	if thorough {
-		return []gridKind{gridFull, gridFull, gridFull, gridSizes2, gridOne}
+		return []gridKind{gridFull, gridFull, gridSizes2, gridOne, gridThin}
 	}
-	return []gridKind{gridFull, gridFull, gridSizes1, gridOne}
+	return []gridKind{gridFull, gridSizes2, gridSizesQ, gridThin}
 }
 
 func settingsFor(g gridKind, ordinal int) []setting {
@@ -153,8 +173,38 @@ func settingsFor(g gridKind, ordinal int) []setting {
 	case gridSizes1:
 		sizes(layouts[rot%2], rot%2)
 		oneOf(layouts[1-rot%2], rot/2)
+	case gridSizesH:
+		b := layouts[rot%2]
+		out = append(out, setting{B: b, W: 1 + rot%3, Bld: true})
+		for k, bs := range []int{1, 2, 3, 0} {
+			out = append(out, setting{B: b, W: 1 + (rot+k)%3, BSize: bs, BPar: 1 + (rot/2+k)%2})
+		}
+		oneOf(layouts[1-rot%2], rot/2)
+	case gridSizesQ:
+		b := layouts[rot%2]
+		out = append(out, setting{B: b, W: 1 + rot%3, Bld: true})
+		sz := []int{1, 2, 3, 0}
+		for k := 0; k < 2; k++ {
+			out = append(out, setting{B: b, W: 1 + (rot+k)%3, BSize: sz[(rot/2+2*k)%4], BPar: 1 + (rot/8+k)%2})
+		}
+		oneOf(layouts[1-rot%2], rot/2)
 	case gridOne:
 		oneOf(layouts[rot%2], rot/2)
+	case gridOneIn2:
+		if ordinal%2 == 0 {
+			oneOf(layouts[(rot/2)%2], rot/4)
+		}
+	case gridOneIn4:
+		if ordinal%4 == 0 {
+			oneOf(layouts[(rot/4)%2], rot/8)
+		}
+	case gridOneIn8, gridThin:
+		if g == gridThin {
+			out = []setting{{B: dnsfix.CDB, W: 1 + rot%3}}
+		}
+		if ordinal%8 == 0 {
+			oneOf(layouts[(rot/8)%2], rot/16)
+		}
 	}
 	return out
 }
@@ -261,9 +311,18 @@ type smallStats struct {
 	compiles, rejectChecks, dumpChecks, crossChecks int64
 }
 
-// smallInputs is part (a): every file of at most maxLen alphabet lines.
-func smallInputs(r *vlib.Run, p *pool) {
+// smallInputs is part (a): every file of at most maxLen alphabet lines. Like
+// largeInputs it returns a compute step (no access to r) and a record step.
+func smallInputs(r *vlib.Run, p *pool) (compute func(), record func()) {
+	nop := func() {}
 	grids := layerGrids(r.Thorough())
+	if v := os.Getenv("C07_DEBUG_MAXLINES"); v != "" { // diagnostics only
+		if n, err := strconv.Atoi(v); err == nil && n >= 0 && n < len(grids)-1 {
+			grids = grids[:n+1]
+			r.Exhaustive = false
+			r.Note("DIAGNOSTIC RUN: small files restricted to <=%d lines", n)
+		}
+	}
 	lMax := len(grids) - 1
 	files := enumerateFiles(lMax)
 	full := allSettings()
@@ -283,116 +342,129 @@ func smallInputs(r *vlib.Run, p *pool) {
 		}
 		jobs[i] = execJob{ID: i, Text: files[i].Text, Settings: sets}
 	}
-	pl := plan{BuilderPerChild: 24, BuilderGCOff: true, OtherPerChild: 240}
-	outs := p.run(jobs, pl)
+	if os.Getenv("C07_DEBUG_PLAN") != "" { // diagnostics only: show the size of the enumeration and stop
+		for l := 0; l <= lMax; l++ {
+			fmt.Fprintf(os.Stderr, "c07 plan: %d lines: %d files x grid %q = %d compiles\n", l, layerCount[l], grids[l].String(), layerCells[l])
+		}
+		r.Exhaustive = false
+		r.Note("DIAGNOSTIC RUN: plan only")
+		return nop, nop
+	}
+	var outs [][]cellOutcome
+	compute = func() {
+		outs = p.run(jobs, plan{BuilderPerChild: 24, BuilderGCOff: true, OtherPerChild: 120})
+	}
+	record = func() {
 
-	var st smallStats
-	fails := make([]map[string]verdict, len(files))
-	var nontrivial, rejectedFiles, multiValue, twoMaps int64
-	{
-		for k, j := range jobs {
-			f := files[j.ID]
-			refs := map[dnsfix.Backend]refSummary{}
-			var rv refResult
-			for _, b := range dnsfix.Backends {
-				rr := reference(f.Text, b)
-				refs[b] = summarize(rr)
-				if b == dnsfix.RDBv1 {
-					rv = rr
-				}
-			}
-			fails[j.ID] = verdictsOf(f.Text, j.Settings, outs[k], refs, &st)
-			nt := false
-			if rv.Rejected >= 0 {
-				rejectedFiles++
-				nt = true
-			} else {
-				if rv.MaxPerKy >= 2 {
-					multiValue++
-					nt = true
-				}
-				maps := map[string]bool{}
-				for k := range rv.Dump {
-					if strings.HasPrefix(k, "\x00\x00\x00!") && len(k) >= 6 {
-						maps[k[4:6]] = true
+		var st smallStats
+		fails := make([]map[string]verdict, len(files))
+		var nontrivial, rejectedFiles, multiValue, twoMaps int64
+		{
+			for k, j := range jobs {
+				f := files[j.ID]
+				refs := map[dnsfix.Backend]refSummary{}
+				var rv refResult
+				for _, b := range dnsfix.Backends {
+					rr := reference(f.Text, b)
+					refs[b] = summarize(rr)
+					if b == dnsfix.RDBv1 {
+						rv = rr
 					}
 				}
-				if len(maps) >= 2 {
-					twoMaps++
+				fails[j.ID] = verdictsOf(f.Text, j.Settings, outs[k], refs, &st)
+				nt := false
+				if rv.Rejected >= 0 {
+					rejectedFiles++
 					nt = true
-				}
-			}
-			if nt {
-				nontrivial++
-				r.Sample(map[string]interface{}{"file": f.Name, "lines": strings.Split(strings.TrimSuffix(string(f.Text), "\n"), "\n"),
-					"settings": len(j.Settings), "rdb_v1_records": rv.Records, "max_values_per_key": rv.MaxPerKy, "rejected_line": rv.Rejected})
-			}
-		}
-	}
-
-	// minimal-failing-case attribution: report (file, kind/setting) only if no
-	// file obtained by deleting one line fails in the same way.
-	reported := 0
-	for i, f := range files {
-		for _, key := range sortedKeys(fails[i]) {
-			minimal := true
-			for d := range f.Idx {
-				sub := append(append([]int(nil), f.Idx[:d]...), f.Idx[d+1:]...)
-				if j, ok := byName[fileName(sub)]; ok {
-					if _, bad := fails[j][key]; bad {
-						minimal = false
-						break
+				} else {
+					if rv.MaxPerKy >= 2 {
+						multiValue++
+						nt = true
+					}
+					maps := map[string]bool{}
+					for k := range rv.Dump {
+						if strings.HasPrefix(k, "\x00\x00\x00!") && len(k) >= 6 {
+							maps[k[4:6]] = true
+						}
+					}
+					if len(maps) >= 2 {
+						twoMaps++
+						nt = true
 					}
 				}
+				if nt {
+					nontrivial++
+					r.Sample(map[string]interface{}{"file": f.Name, "lines": strings.Split(strings.TrimSuffix(string(f.Text), "\n"), "\n"),
+						"settings": len(j.Settings), "rdb_v1_records": rv.Records, "max_values_per_key": rv.MaxPerKy, "rejected_line": rv.Rejected})
+				}
 			}
-			if !minimal {
-				continue
-			}
-			reported++
-			v := fails[i][key]
-			if v.Diff && reported <= 40 {
-				v.Info += ": " + p.describe(f.Text, v.Set, 0)
-			}
-			r.Violate(key+"/"+f.Name, fmt.Sprintf("file %q:\n%s%s", f.Name, indent(string(f.Text)), v.Info),
-				map[string]interface{}{"file": f.Name, "text": string(f.Text), "setting": key[strings.Index(key, "/")+1:], "kind": key[:strings.Index(key, "/")]})
 		}
-	}
 
-	r.Add("states", int64(len(files)))
-	r.Add("transitions", st.compiles)
-	r.Add("traces_validated_against_impl", st.compiles)
-	r.Add("evaluations", st.rejectChecks+st.dumpChecks+st.crossChecks)
-	r.Add("distinct_nontrivial", nontrivial)
-	r.Set("small_alphabet_lines", len(alphabet))
-	r.Set("small_alphabet_rejected_lines", numRejectedInAlphabet)
-	var layers []string
-	for l := 0; l <= lMax; l++ {
-		layers = append(layers, fmt.Sprintf("%d lines: %d files x grid %q = %d compiles", l, layerCount[l], grids[l].String(), layerCells[l]))
-	}
-	r.Set("small_layers", layers)
-	r.Set("small_max_lines", lMax)
-	r.Set("small_files", len(files))
-	r.Set("small_settings_full_grid", len(full))
-	minUse := -1
-	for _, s := range full {
-		if u := used[s.String()]; minUse < 0 || u < minUse {
-			minUse = u
+		// minimal-failing-case attribution: report (file, kind/setting) only if no
+		// file obtained by deleting one line fails in the same way.
+		reported := 0
+		for i, f := range files {
+			for _, key := range sortedKeys(fails[i]) {
+				minimal := true
+				for d := range f.Idx {
+					sub := append(append([]int(nil), f.Idx[:d]...), f.Idx[d+1:]...)
+					if j, ok := byName[fileName(sub)]; ok {
+						if _, bad := fails[j][key]; bad {
+							minimal = false
+							break
+						}
+					}
+				}
+				if !minimal {
+					continue
+				}
+				reported++
+				v := fails[i][key]
+				if v.Diff && reported <= 40 {
+					v.Info += ": " + p.describe(f.Text, v.Set, 0)
+				}
+				r.Violate(key+"/"+f.Name, fmt.Sprintf("file %q:\n%s%s", f.Name, indent(string(f.Text)), v.Info),
+					map[string]interface{}{"file": f.Name, "text": string(f.Text), "setting": key[strings.Index(key, "/")+1:], "kind": key[:strings.Index(key, "/")]})
+			}
 		}
+
+		r.Add("states", int64(len(files)))
+		r.Add("transitions", st.compiles)
+		r.Add("traces_validated_against_impl", st.compiles)
+		r.Add("evaluations", st.rejectChecks+st.dumpChecks+st.crossChecks)
+		r.Add("distinct_nontrivial", nontrivial)
+		r.Set("small_alphabet_lines", len(alphabet))
+		r.Set("small_alphabet_rejected_lines", numRejectedInAlphabet)
+		var layers []string
+		for l := 0; l <= lMax; l++ {
+			layers = append(layers, fmt.Sprintf("%d lines: %d files x grid %q = %d compiles", l, layerCount[l], grids[l].String(), layerCells[l]))
+		}
+		r.Set("small_layers", layers)
+		r.Set("small_max_lines", lMax)
+		r.Set("small_files", len(files))
+		r.Set("small_settings_full_grid", len(full))
+		minUse := -1
+		for _, s := range full {
+			if u := used[s.String()]; minUse < 0 || u < minUse {
+				minUse = u
+			}
+		}
+		r.Set("small_min_files_per_setting", minUse)
+		r.Set("small_compiles", st.compiles)
+		r.Set("small_files_with_rejected_line", rejectedFiles)
+		r.Set("small_files_with_several_values_under_one_key", multiValue)
+		r.Set("small_files_with_two_maps", twoMaps)
+		r.Set("small_store_vs_reference_comparisons", st.dumpChecks)
+		r.Set("small_rejection_checks", st.rejectChecks)
+		var an []string
+		for _, a := range alphabet {
+			an = append(an, a.Name+"="+a.Text)
+		}
+		r.Set("small_alphabet", an)
+		addRule(fmt.Sprintf("(a) every sequence (with repetition) of <=%d lines over a %d-line alphabet (%d of them rejected by the codec) is compiled by the real CDB and RocksDB compilers. Settings grid: workers 1-3 x builder|batches x batch size 1,2,3,default x batch parallelism 1,2 x v1|v2 keys, plus CDB workers 1-3 = %d settings. Per file length: %s (grid \"sizes2\" = CDB 1-3 + for both key layouts one builder and all 8 size x parallelism combinations with rotating worker counts; \"sizes1\" = the same for one key layout, alternating, plus one setting of the other layout; \"sizes-half\" / \"sizes-quarter\" = CDB 1-3 + for one key layout, alternating, one builder and four / two of the batch sizes with alternating parallelism, plus one setting of the other layout; \"one\" = CDB 1-3 + one of the 54 RocksDB settings, rotating with the file ordinal; \"one-in-N\" = the same with the RocksDB setting on every N-th file only; \"thin\" = one CDB worker count, rotating, + the RocksDB setting on every 8th file); every setting is applied to at least %d files. Each produced store is dumped completely and compared, as a map key -> multiset of values (canonical hash; textual diff only for the report), with Codec.ConvertLn applied line by line on one goroutine followed by Acc.MarshalMap and Features.MarshalMap; if the codec rejects a line every setting must return an error. A file is non-trivial if it has a rejected line, >=2 values under one key, or range points of two maps. Failures are reported only for files none of whose one-line deletions fails in the same way.",
+			lMax, len(alphabet), numRejectedInAlphabet, len(full), strings.Join(layers, "; "), minUse))
 	}
-	r.Set("small_min_files_per_setting", minUse)
-	r.Set("small_compiles", st.compiles)
-	r.Set("small_files_with_rejected_line", rejectedFiles)
-	r.Set("small_files_with_several_values_under_one_key", multiValue)
-	r.Set("small_files_with_two_maps", twoMaps)
-	r.Set("small_store_vs_reference_comparisons", st.dumpChecks)
-	r.Set("small_rejection_checks", st.rejectChecks)
-	var an []string
-	for _, a := range alphabet {
-		an = append(an, a.Name+"="+a.Text)
-	}
-	r.Set("small_alphabet", an)
-	addRule(fmt.Sprintf("(a) every sequence (with repetition) of <=%d lines over a %d-line alphabet (%d of them rejected by the codec) is compiled by the real CDB and RocksDB compilers. Settings grid: workers 1-3 x builder|batches x batch size 1,2,3,default x batch parallelism 1,2 x v1|v2 keys, plus CDB workers 1-3 = %d settings. Per file length: %s (grid \"sizes2\" = CDB 1-3 + for both key layouts one builder and all 8 size x parallelism combinations with rotating worker counts; \"sizes1\" = the same for one key layout, alternating, plus one setting of the other layout; \"one\" = CDB 1-3 + one of the 54 RocksDB settings, rotating with the file ordinal); every setting is applied to at least %d files. Each produced store is dumped completely and compared, as a map key -> multiset of values (canonical hash; textual diff only for the report), with Codec.ConvertLn applied line by line on one goroutine followed by Acc.MarshalMap and Features.MarshalMap; if the codec rejects a line every setting must return an error. A file is non-trivial if it has a rejected line, >=2 values under one key, or range points of two maps. Failures are reported only for files none of whose one-line deletions fails in the same way.",
-		lMax, len(alphabet), numRejectedInAlphabet, len(full), strings.Join(layers, "; "), minUse))
+	return compute, record
 }
 
 func indent(s string) string {
